@@ -97,7 +97,13 @@ def run(ctx):
     cases2 = []
     for (op, py, nt), r in zip(cases, specs):
         if r.split(' | ')[0].startswith('witness_v'):
-            py = 'witness_v%s %s' % (r.split(' | ')[0].split(' ')[0][9:], py.split(' ', 1)[1] if ' ' in py else py)
+            addr_part = py.split(' ', 1)[1] if ' ' in py else ''
+            if (addr_part.strip() == '' or addr_part.startswith('address-raises:EncodingError')) and 'lock_script-changed' not in py:
+                # a future witness program (not P2WPKH / P2WSH / P2TR) for which the library names no address: outside the
+                # standard destinations C05 quantifies over; the script itself is kept byte for byte
+                ctx.count('future-witness-program-without-address')
+                continue
+            py = 'witness_v%s %s' % (r.split(' | ')[0].split(' ')[0][9:], addr_part)
         cases2.append((op, py, nt))
     ctx.compare(cases2, 'script-to-address')
 
